@@ -153,10 +153,16 @@ VARIABLES ti,       \* index into TreeList          (inputs, constant along a be
 wvars == <<ti, nm, c0, cur, ei, stack, ctx, mts, out, steps>>
 T == TreeList[ti]
 
+(* The tree is chosen by the initial state, the name and the carried context by the first step (so that
+   TLC's workers share the exploration: initial states are generated by one thread only). *)
+NotStarted == 0 - 2
 WInit == /\ ti \in 1..Len(TreeList)
-         /\ nm \in NamesUpTo(MaxLen)
-         /\ c0 \in Ctx0s
-         /\ cur = T.start /\ ei = NoneId /\ stack = <<>> /\ ctx = c0 /\ mts = <<>> /\ out = {} /\ steps = 0
+         /\ nm = <<>> /\ c0 = EmptyTCtx
+         /\ cur = NotStarted /\ ei = NoneId /\ stack = <<>> /\ ctx = EmptyTCtx /\ mts = <<>> /\ out = {} /\ steps = 0
+StepStart == /\ cur = NotStarted
+             /\ nm' \in NamesUpTo(MaxLen) /\ c0' \in Ctx0s
+             /\ cur' = T.start /\ ctx' = c0'
+             /\ UNCHANGED <<ti, ei, stack, mts, out, steps>>
 
 Depth == Len(stack)
 Node  == NodeAt(T, cur)
@@ -171,7 +177,7 @@ Backtrack(st, ms, cx, e) ==
             THEN [t \in DOMAIN cx \ {ms[Len(ms)]} |-> cx[t]] ELSE cx
   /\ cur' = IF Node.hp THEN Node.parent ELSE NoneId
 
-Running == cur # NoneId
+Running == cur # NoneId /\ cur # NotStarted
 (* depth == len(name): yield, then backtrack *)
 StepYield == /\ Running /\ Depth = Len(nm)
              /\ out' = out \cup {<<cur, ctx>>}
@@ -200,7 +206,7 @@ StepPatternTake == /\ Running /\ Depth < Len(nm) /\ ei >= 0 /\ ei < Len(Node.p) 
 StepExhausted == /\ Running /\ Depth < Len(nm) /\ ei >= Len(Node.p)
                  /\ Backtrack(stack, mts, ctx, ei) /\ UNCHANGED out /\ Tick /\ Same
 
-WNext == StepYield \/ StepValueHit \/ StepValueMiss \/ StepPatternSkip \/ StepPatternTake \/ StepExhausted
+WNext == StepStart \/ StepYield \/ StepValueHit \/ StepValueMiss \/ StepPatternSkip \/ StepPatternTake \/ StepExhausted
 WSpec == WInit /\ [][WNext]_wvars /\ WF_wvars(WNext)
 
 Done == cur = NoneId
